@@ -81,11 +81,12 @@ OnEof(st, m) ==
               !.failed = IF st.cur # 0 /\ m.status[st.cur] = "failed"
                          THEN @ \o SelectSeq(Walk(m, st.cur), LAMBDA s : m.status[s] = "failed")
                          ELSE @]
-\* NOT the code: the smallest change that satisfies (P) -- `.has_failed()` instead of `== Status.failed` in both tests
-\* (the repair drafted in design/candidate_repairs.diff; used by Rerun_MC to show that the clauses can be met)
+\* the repaired code (/repo a6c29a8 and its follow-up): every scenario of the finished feature with a failed or
+\* error-class status is collected, whatever the feature's own status is (after an aborted run with autoretry a
+\* feature can be `untested` -- its first row untested -- while a later row ended hook_error)
 OnEofRepaired(st, m) ==
    [st EXCEPT !.cur = 0,
-              !.failed = IF st.cur # 0 /\ m.status[st.cur] \in FailedOrError
+              !.failed = IF st.cur # 0
                          THEN @ \o SelectSeq(Walk(m, st.cur), LAMBDA s : m.status[s] \in FailedOrError)
                          ELSE @]
 \* def close(self): if self.failed_scenarios: open("w"); banner; one location per scenario
